@@ -17,19 +17,19 @@ GEN_RULE = ("cases = (container kind, thread_safe mode, key/value types, capacit
             "drawn by a rapidcheck Gen<Case> (16 workers, seeds derived from VERIF_SEED); distinct = 64-bit hash of the canonical case text; ")
 
 PROPS = {
-    "C01": dict(mode="model", profile="general", **tiers(8000, 60, 60000, 120, t_fuzz_s=90),
+    "C01": dict(mode="model", profile="general", **tiers(12000, 60, 60000, 120, t_fuzz_s=90),
                 rule=GEN_RULE + "non-trivial = at least one slot recycle (a new key inserted after an erase or eviction) followed by at least one checked hit",
                 needs=["slot_recycles", "checked_hits_after_recycle"]),
-    "C02": dict(mode="model", profile="general", **tiers(8000, 60, 60000, 120, t_fuzz_s=90),
+    "C02": dict(mode="model", profile="general", **tiers(12000, 60, 60000, 120, t_fuzz_s=90),
                 rule=GEN_RULE + "non-trivial = the size() trajectory is non-monotone (a decrease by erase/evict/expiry/clear followed by an increase)",
                 needs=["size_dec_then_inc", "steps_at_capacity"]),
-    "C03": dict(mode="model", profile="general", **tiers(8000, 60, 60000, 120, t_fuzz_s=90),
+    "C03": dict(mode="model", profile="general", **tiers(12000, 60, 60000, 120, t_fuzz_s=90),
                 rule=GEN_RULE + "non-trivial = at least one insert of a new key at size()==capacity() and at least one insert into a slot freed by an erase on a previously full cache (ut_map/ut_set: any insert after a removal)",
                 needs=["inserts_into_full", "inserts_into_free_slot_after_erase_on_full"]),
-    "C04": dict(fuzz_kinds=[6, 7, 8, 9], mode="model", profile="ttl", **tiers(8000, 60, 60000, 120, t_fuzz_s=60),
+    "C04": dict(fuzz_kinds=[6, 7, 8, 9], mode="model", profile="ttl", **tiers(12000, 60, 60000, 120, t_fuzz_s=60),
                 rule=GEN_RULE + "non-trivial = at least one lookup of a key whose entry has expired and has not been observably removed",
                 needs=["zombie_probes", "zombie_probes_at_exact_deadline"]),
-    "C05": dict(fuzz_kinds=[6, 7, 8, 9], mode="model", profile="ttl", **tiers(8000, 60, 60000, 120, t_fuzz_s=60),
+    "C05": dict(fuzz_kinds=[6, 7, 8, 9], mode="model", profile="ttl", **tiers(12000, 60, 60000, 120, t_fuzz_s=60),
                 rule=GEN_RULE + "non-trivial = at least one hit within 1 ms before the deadline and at least one write that moved an existing deadline",
                 needs=["hits_within_1ms_of_deadline", "writes_moving_a_deadline"]),
     "C06": dict(mode="sched", profile="all", engine_bin="sched",
@@ -60,47 +60,47 @@ PROPS = {
                 "non-trivial = at least two slot recycles (removal -> creation) in the history",
                 needs=["slot_recycles"],
                 assumptions=["uninitialised reads are not monitored (no MSan-instrumented libstdc++ in this image)"]),
-    "C09": dict(mode="model", profile="general", **tiers(8000, 60, 60000, 120, t_fuzz_s=90),
+    "C09": dict(mode="model", profile="general", **tiers(12000, 60, 60000, 120, t_fuzz_s=90),
                 rule=GEN_RULE + "non-trivial = at least one rejected and one accepted insert whose key had a prior history (erased, evicted or expired)",
                 needs=["rejected_with_prior_history", "accepted_with_prior_history"]),
-    "C10": dict(fuzz_kinds=[0, 6, 7], mode="model", profile="recency", kinds=["lru", "tlru", "utlru"], **tiers(8000, 60, 60000, 120, t_fuzz_s=60),
+    "C10": dict(fuzz_kinds=[0, 6, 7], mode="model", profile="recency", kinds=["lru", "tlru", "utlru"], **tiers(12000, 60, 60000, 120, t_fuzz_s=60),
                 rule=GEN_RULE + "non-trivial = at least one eviction whose victim is not the earliest-inserted resident (LRU distinguishable from FIFO)",
                 needs=["evict_victim_not_oldest_inserted"]),
-    "C11": dict(fuzz_kinds=[3, 4], mode="model", profile="lfu", **tiers(8000, 60, 60000, 120, t_fuzz_s=60),
+    "C11": dict(fuzz_kinds=[3, 4], mode="model", profile="lfu", **tiers(12000, 60, 60000, 120, t_fuzz_s=60),
                 rule=GEN_RULE + "non-trivial = at least one eviction while the residents' use counts are not all equal",
                 needs=["evict_with_nonuniform_counts"]),
-    "C12": dict(fuzz_kinds=[2], mode="model", profile="fifo", **tiers(8000, 60, 60000, 120, t_fuzz_s=60),
+    "C12": dict(fuzz_kinds=[2], mode="model", profile="fifo", **tiers(12000, 60, 60000, 120, t_fuzz_s=60),
                 rule=GEN_RULE + "non-trivial = an eviction after an erase of a non-oldest entry and a refill, or after the oldest entry was updated / looked up",
                 needs=["fifo_evict_after_mid_erase_refill", "fifo_evict_after_oldest_touched"]),
-    "C13": dict(fuzz_kinds=[1], mode="model", profile="recency", kinds=["mru"], **tiers(8000, 60, 60000, 120, t_fuzz_s=60),
+    "C13": dict(fuzz_kinds=[1], mode="model", profile="recency", kinds=["mru"], **tiers(12000, 60, 60000, 120, t_fuzz_s=60),
                 rule=GEN_RULE + "non-trivial = at least one eviction whose victim is not the most recently inserted resident",
                 needs=["evict_victim_not_newest_inserted"]),
-    "C14": dict(fuzz_kinds=[4], mode="model", profile="lfuda", **tiers(8000, 60, 60000, 120, t_fuzz_s=60),
+    "C14": dict(fuzz_kinds=[4], mode="model", profile="lfuda", **tiers(12000, 60, 60000, 120, t_fuzz_s=60),
                 rule=GEN_RULE + "non-trivial = an aging point at which some but not all residents are idle and an entry older by insertion than an idle one was used more recently",
                 needs=["aging_points_mixed_older_entry_fresher"]),
     "C15": dict(mode="model", profile="rr", profiles=[("rr", None, "model", 1.0)] * 6 + [("rrstats", None, "stats-rr", 0.02)] * 2 + [("rrmass", None, "stats-rr-mass", 0.003, "plain")],
                 thorough_profiles=[("rr", None, "model", 1.0)] * 6 + [("rrstats", None, "stats-rr", 0.02)] * 2 + [("rrmass_t", None, "stats-rr-mass", 0.001, "plain")],
-                **tiers(8000, 60, 60000, 120),
+                **tiers(12000, 60, 60000, 120),
                 rule=GEN_RULE + "non-trivial = (model mode) at least two evictions and at least one erase of a live key in the same history; "
                 "(stats-rr mode, 2 workers in 9) a run of 400*capacity evicting inserts with at least one interleaved erase+refill, victim-rank histogram checked; "
                 "(stats-rr-mass mode, 1 worker in 9) capacity 300 / 5000 / 70000 (thorough: also 140000), 30*capacity evictions, run in an engine build without sanitizers and checked iterators, none of the original residents may survive; key tables: mixed, multiples of 64, high-bit-only",
                 needs=["evictions"]),
-    "C16": dict(fuzz_kinds=[6, 7], mode="model", profile="ttlfull", **tiers(8000, 60, 60000, 120, t_fuzz_s=60),
+    "C16": dict(fuzz_kinds=[6, 7], mode="model", profile="ttlfull", **tiers(12000, 60, 60000, 120, t_fuzz_s=60),
                 rule=GEN_RULE + "non-trivial = an insert of a new key into a full tlru/utlru cache holding at least one live and at least one expired resident",
                 needs=["inserts_into_full_with_expired_and_live"]),
-    "C18": dict(fuzz_kinds=[0, 1, 2, 3, 4, 5, 6, 7, 8, 9], mode="twin-range", profile="range", **tiers(8000, 60, 60000, 120, t_fuzz_s=60),
+    "C18": dict(fuzz_kinds=[0, 1, 2, 3, 4, 5, 6, 7, 8, 9], mode="twin-range", profile="range", **tiers(12000, 60, 60000, 120, t_fuzz_s=60),
                 rule=GEN_RULE + "every range call is executed as one call on instance A and as the element-wise single calls on instance B at a frozen clock; "
                 "non-trivial = a range with a duplicate key, or mixed successes and failures, or more new keys than free slots",
                 needs=["twin_range_with_duplicate", "twin_range_mixed_success", "range_insert_with_eviction"]),
-    "C19": dict(fuzz_kinds=[0, 1, 2, 3, 4, 5, 6, 7, 8, 9], mode="twin-noop", profile="noop", **tiers(8000, 60, 60000, 120, t_fuzz_s=60),
+    "C19": dict(fuzz_kinds=[0, 1, 2, 3, 4, 5, 6, 7, 8, 9], mode="twin-noop", profile="noop", **tiers(12000, 60, 60000, 120, t_fuzz_s=60),
                 rule=GEN_RULE + "instance B additionally executes generated no-effect calls (peek lookups, missing lookups, rejected inserts, erases of absent keys; decided by the model at run time); "
                 "non-trivial = at least one spliced call followed by at least one eviction or aging point",
                 needs=["splices_executed", "evictions_after_splice"]),
-    "C20": dict(fuzz_kinds=[7, 8], mode="twin-clear", profile="clear", crash_rule="after_clear", **tiers(8000, 60, 60000, 120, t_fuzz_s=60),
+    "C20": dict(fuzz_kinds=[7, 8], mode="twin-clear", profile="clear", crash_rule="after_clear", **tiers(12000, 60, 60000, 120, t_fuzz_s=60),
                 rule=GEN_RULE + "instance B is constructed fresh (same capacity, currently configured TTL) at the last clear() of the history and both run the continuation; "
                 "non-trivial = clear() on a non-empty container and a continuation with at least one eviction (utlru) or expiry",
                 needs=["twin_created_after_clear", "clear_on_nonempty"]),
-    "C17": dict(fuzz_kinds=[6, 7, 8, 9], mode="model", profile="clean", **tiers(8000, 60, 60000, 120, t_fuzz_s=60),
+    "C17": dict(fuzz_kinds=[6, 7, 8, 9], mode="model", profile="clean", **tiers(12000, 60, 60000, 120, t_fuzz_s=60),
                 rule=GEN_RULE + "non-trivial = clean_expired_values() called with at least one live and at least one expired resident",
                 needs=["clean_with_live_and_expired"]),
 }
